@@ -98,9 +98,26 @@ impl Interval {
         }
     }
 
+    /// Builds an interval from two values in either order
+    ///
+    /// (the values of a monotonic function at the two bounds may be misordered
+    /// by rounding when the bounds are a few ulps apart)
+    #[inline]
+    fn ordered(a: f32, b: f32) -> Self {
+        if a.is_nan() || b.is_nan() {
+            f32::NAN.into()
+        } else {
+            Interval::new(a.min(b), a.max(b))
+        }
+    }
+
     /// Returns the quadrant for trigonometric functions
     fn quadrant(angle: f32) -> Quadrant {
-        match (angle * 2.0 / PI).floor().rem_euclid(4.0) as u8 {
+        // Computed in f64: in f32 the quotient is only good to a few ulps,
+        // which is a sizable part of a quadrant (or several quadrants) for
+        // large angles
+        let q = f64::from(angle) * 2.0 / std::f64::consts::PI;
+        match q.floor().rem_euclid(4.0) as u8 {
             0 => Quadrant::Q0,
             1 => Quadrant::Q1,
             2 => Quadrant::Q2,
@@ -157,18 +174,18 @@ impl Interval {
                 }
                 (Q1, Q1) | (Q2, Q2) => {
                     // decreasing quadrant
-                    Interval::new(self.upper.sin(), self.lower.sin())
+                    Self::ordered(self.upper.sin(), self.lower.sin())
                 }
                 (Q0, Q0) | (Q3, Q3) => {
                     // increasing quadrant
-                    Interval::new(self.lower.sin(), self.upper.sin())
+                    Self::ordered(self.lower.sin(), self.upper.sin())
                 }
                 (Q3, Q0) => {
                     if d >= PI {
                         Interval::new(-1.0, 1.0) // diameter >= 3*PI/2
                     } else {
                         // increasing
-                        Interval::new(self.lower.sin(), self.upper.sin())
+                        Self::ordered(self.lower.sin(), self.upper.sin())
                     }
                 }
                 (Q1, Q2) => {
@@ -176,7 +193,7 @@ impl Interval {
                         Interval::new(-1.0, 1.0) // diameter >= 3*PI/2
                     } else {
                         // decreasing
-                        Interval::new(self.upper.sin(), self.lower.sin())
+                        Self::ordered(self.upper.sin(), self.lower.sin())
                     }
                 }
                 (Q0 | Q3, Q1 | Q2) => {
@@ -210,24 +227,24 @@ impl Interval {
                 }
                 (Q2, Q2) | (Q3, Q3) => {
                     // increasing quadrant
-                    Interval::new(self.lower.cos(), self.upper.cos())
+                    Self::ordered(self.lower.cos(), self.upper.cos())
                 }
                 (Q0, Q0) | (Q1, Q1) => {
                     // decreasing quadrant
-                    Interval::new(self.upper.cos(), self.lower.cos())
+                    Self::ordered(self.upper.cos(), self.lower.cos())
                 }
                 (Q2, Q3) => {
                     if d >= PI {
                         Interval::new(-1.0, 1.0) // diameter >= 2*PI
                     } else {
-                        Interval::new(self.lower.cos(), self.upper.cos())
+                        Self::ordered(self.lower.cos(), self.upper.cos())
                     }
                 }
                 (Q0, Q1) => {
                     if d >= PI {
                         Interval::new(-1.0, 1.0) // diameter >= 3*PI/2
                     } else {
-                        Interval::new(self.upper.cos(), self.lower.cos())
+                        Self::ordered(self.upper.cos(), self.lower.cos())
                     }
                 }
                 (Q2 | Q3, Q0 | Q1) => {
